@@ -35,6 +35,7 @@
      FaitAccompli1Sampler::new_with_partition_fallback FaitAccompli1Sampler::new_with_stake_weighted_fallback
      FaitAccompli1Sampler::sample_quorum FaitAccompli2Sampler::new FaitAccompli2Sampler::minimize_f
      FaitAccompli2Sampler::sample_quorum guaranteed_seats stake_of_seats
+     DecayingAcceptanceSampler::{sample, reset, clone} IidQuorumSampler::sample
      (rand) SliceRandom::shuffle IncreasingUniform::next_index calculate_bound_u32 *)
 From Coq Require Import List NArith ZArith Bool Floats Uint63.
 From AG Require Import Gen.Params Lib.ChaCha.
@@ -684,6 +685,42 @@ Definition sample_quorum (sm : sampler) (s : stream) : res (list N) :=
   | SmFA1Stake required ws kprime k => fa1_sample required k kprime (iid (N.to_nat kprime) (stake_sample ws)) s
   | SmFA2 st => fa2_sample st s
   end.
+
+(* ------------------------------------------------------------------ *)
+(* one instance used through both traits                                *)
+(* ------------------------------------------------------------------ *)
+(* AllSame / Uniform / StakeWeighted / Turbine (through IidQuorumSampler) and DecayingAcceptanceSampler
+   implement SamplingStrategy (single draws) as well as QuorumSamplingStrategy.  Only the decaying sampler
+   has state: `sample_count`, which single draws (sample / sample_info / sample_one) increment, which
+   sample_quorum starts from as it finds it, and which sample_quorum resets completely when it is done
+   (reset()); Clone copies it.  The state is the explicit `counts` argument; the stateless samplers ignore it. *)
+Definition fresh_counts (sm : sampler) : list N :=
+  match sm with SmDecay ws _ _ => map (fun _ => 0) ws | _ => [] end.
+(* SamplingStrategy::sample *)
+Definition sample_single (sm : sampler) (counts : list N) (s : stream) : res (N * list N) :=
+  let lift (r : res N) := match r with Ok v s' => Ok (v, counts) s' | Panic => Panic | Starved => Starved end in
+  match sm with
+  | SmAllSame v _ => lift (allsame_sample v s)
+  | SmUniform n _ => lift (uniform_sample n s)
+  | SmStake ws _ => lift (stake_sample ws s)
+  | SmTurbine fanout ws _ => lift (turbine_sample fanout ws s)
+  | SmDecay ws m _ => decay_one (decay_accept m) (windex_sample ws) (N.to_nat MAX_TRIES_PER_SAMPLE) counts s
+  | _ => Panic                                  (* the other strategies are not SamplingStrategy *)
+  end.
+(* QuorumSamplingStrategy::sample_quorum on an instance in state `counts`; returns the state it leaves *)
+Definition sample_quorum_from (sm : sampler) (counts : list N) (s : stream) : res (list N * list N) :=
+  match sm with
+  | SmDecay ws m k =>
+    match decay_quorum (decay_accept m) (windex_sample ws) (N.to_nat k) counts s with
+    | Ok q r => Ok (q, map (fun _ => 0) ws) r    (* self.reset() *)
+    | Panic => Panic
+    | Starved => Starved
+    end
+  | _ => match sample_quorum sm s with Ok q r => Ok (q, counts) r | Panic => Panic | Starved => Starved end
+  end.
+(* DecayingAcceptanceSampler::reset (a no-op for the stateless samplers) *)
+Definition reset_counts (sm : sampler) (counts : list N) : list N :=
+  match sm with SmDecay ws _ _ => map (fun _ => 0) ws | _ => counts end.
 
 (* ------------------------------------------------------------------ *)
 (* rand's slice shuffle on a fixed-seed StdRng (PartitionSampler::new)  *)
